@@ -12,7 +12,7 @@
 (*  MKill{task}  MSubscribe{fid,assigned}  MReconcile  MStreamDropped      *)
 (*  CoreKilled  MGateReached{point,task}  MGateReleased{point,kind}        *)
 (*  Snapshot{envs,roster,alive}                                            *)
-(*  Poll{env,st,reached}  Quiesced{alive}  End                             *)
+(*  Poll{env,st,reached}  Quiesced{alive}  Orphans{alive}  End             *)
 (*                                                                         *)
 (* Strict part: every line must be the Restart action it stands for, taken *)
 (* from the model state reached so far; steps of the core that leave no    *)
@@ -33,7 +33,10 @@
 (*  NoOrphans       after a restart, once the new core has reconciled (and  *)
 (*                  re-reconciled if its stream was dropped) and as long   *)
 (*                  as no environment has been requested of it, the master *)
-(*                  has no live task left (Quiesced lines); detail: the     *)
+(*                  has no live task left (Quiesced lines); later on, when  *)
+(*                  a reconciliation round has settled and no request is   *)
+(*                  in progress, it has no live task outside the core's    *)
+(*                  roster (Orphans lines); detail: the                     *)
 (*                  fault before, the survivors, has the core subscribed   *)
 (*                  again since the last fault / refused call               *)
 (*  NoFriendlyFire  no KILL call for a task locked by an environment       *)
@@ -187,18 +190,19 @@ MCrash == Ev = "CoreKilled" /\ Crash
 MSnap == Ev = "Snapshot" /\ SnapOK /\ Same
 MPoll == Ev = "Poll" /\ PollOK /\ Same
 MQuiesced == Ev = "Quiesced" /\ SetOf(Line.alive) = {t \in Tasks : Alive(t)} /\ Same
+MOrphans == Ev = "Orphans" /\ SetOf(Line.alive) = {t \in Tasks : Alive(t) /\ t \notin roster} /\ Same
 MFid == Ev = "Fid" /\ Line.stored = store /\ Same
 \* the driver lets a teardown parked at the entry of roster.updateTasks go: its write-back
 MHookRel ==
   /\ Ev = "GateReleased"
   /\ IF Line.point = "task.roster.update" /\ (\E e \in Envs : env[e] = "rewriting")
        THEN RosterWrite(TheEnvIn("rewriting")) ELSE Same
-MOther == Ev \notin {"GateReleased", "Api", "ApiReply", "MAccept", "Hook", "MUpdate", "MMessage", "MGateReached", "MGateReleased", "MKill", "MSubscribe",
+MOther == Ev \notin {"GateReleased", "Orphans", "Api", "ApiReply", "MAccept", "Hook", "MUpdate", "MMessage", "MGateReached", "MGateReleased", "MKill", "MSubscribe",
                      "MReconcile", "MStreamDropped", "CoreKilled", "Snapshot", "Poll", "Quiesced", "Fid"} /\ Same
 
 MatchLine ==
   \/ MApi \/ MApiReply \/ MAcceptL \/ MHook \/ MHookRel \/ MUpdateL \/ MMessageL \/ MGate \/ MGateRel \/ MKillL \/ MSub \/ MRec \/ MDrop
-  \/ MCrash \/ MSnap \/ MPoll \/ MQuiesced \/ MFid \/ MOther
+  \/ MCrash \/ MSnap \/ MPoll \/ MQuiesced \/ MOrphans \/ MFid \/ MOther
 
 \* the state in which every scenario starts: one core, booted, registered as framework 1, reconciled
 Booted ==
@@ -262,6 +266,10 @@ Monitor ==
          /\ UNCHANGED mvs
     [] Ev = "Quiesced" ->
          /\ nviol' = nviol + Soft("NoOrphans", m_fresh => Line.alive = <<>>, <<m_phase, Line.alive, m_nsub > 0>>)
+         /\ UNCHANGED mvs
+    [] Ev = "Orphans" ->
+         \* (taken when recovery has settled and no request is in progress: alive at the master, not in the core's roster)
+         /\ nviol' = nviol + Soft("NoOrphans", Line.alive = <<>>, <<m_phase, Line.alive, m_nsub > 0>>)
          /\ UNCHANGED mvs
     [] Ev = "Snapshot" ->
          /\ m_roster' = {r.task : r \in SetOf(Line.roster)}
